@@ -223,6 +223,30 @@ def null_cases():
     return cases
 
 
+def witness_cases():
+    """rebalancing cases in their contexts (tools/props/tree_witnesses.ops, chosen by tools/treecases.py): every rotation call
+    site of the red-black / AVL fix-up loops with the rotated node at the root, as a left and as a right child, with and
+    without an inner subtree, for every balance factor of the nodes involved; every pair of consecutive loop iterations that
+    the audit saw; every kind of unlinked node followed by every first fix-up step.  The seeded random sequences reach
+    these too, but which of them a given seed reaches is luck; these cases run in every quick run."""
+    import os
+    path = os.path.join(os.path.dirname(os.path.abspath(__file__)), "tree_witnesses.ops")
+    cases, cur = [], []
+    for ln in open(path).read().split("\n") + [""]:
+        ln = ln.strip()
+        if ln.startswith("#"):
+            continue
+        if not ln:
+            if cur:
+                i = len(cases)
+                ops = [cur[0]] + [x for o in cur[1:] for x in (o, "shape")]
+                cases.append(ops + ["each 0", "each %d" % (1 + i % 5), "shape", "count"] + (["clear", "shape"] if i % 2 == 0 else ["free"]))
+            cur = []
+            continue
+        cur.append(ln)
+    return cases
+
+
 def run(chk, prop, view, modules, label):
     cfg = pv.repo_config()
     proof_ok, driver_ok, detail = pv.proof_stage(chk, modules)
@@ -231,10 +255,11 @@ def run(chk, prop, view, modules, label):
     fam.keep_prefix = 1      # the `new …` line is the case's configuration, never shrunk away
     thorough = chk.tier == "thorough"
     rng = chk.rng
-    cases = pv.load_corpus("trees") + pv.load_corpus(prop) + null_cases() + oom_cases() + extra_cases()
+    cases = pv.load_corpus("trees") + pv.load_corpus(prop) + null_cases() + oom_cases() + extra_cases() + witness_cases()
     ex = list(exhaustive_seqs(4 if thorough else 3))
     nk = 5 if thorough else 4
     exo = list(exhaustive_orders(nk))
+    chk.cov["directed_rebalancing_witnesses"] = len(witness_cases())
     chk.cov["exhaustive_small_scope"] = {"op_sequences_depth": 4 if thorough else 3, "keys": 4, "sequences": len(ex),
                                          "insertion_x_removal_orders_keys": nk, "orders": len(exo)}
     nr = 1500 if thorough else 200
